@@ -1,5 +1,5 @@
 (* C12 (round 4): the style-aware lookup (model/DfxpStyleAlign.v) and the region-only reader of the tree theorem
-   (Positioning.read_region) agree on elements without style-carried text-align: C12_dfxp_layout_roundtrip_written is the
+   (Positioning.read_region) agree on elements without style-carried text-align: C12_dfxp_layout_roundtrip_written_corollary is the
    style-free instance of the style-aware scraper. *)
 From Coq Require Import List ZArith QArith Bool Lia.
 From PV Require Import lib.Sx lib.Str lib.Result model.Geometry model.Positioning model.DfxpAlign model.DfxpStyleAlign spec.SpecGeom spec.SpecPos.
